@@ -50,12 +50,14 @@ WORKER_TIMEOUT = {'quick': 300, 'thorough': 1500}
 K_LEAK = 'http.parser-retained-after-disconnect'
 K_CLEN = 'http.invalid-content-length-dispatched'
 K_505 = 'http.505-echoes-request-version'
+K_LOC = 'http.redirect-location-reflects-control-bytes'
 
 CANARY = b'GET /canary HTTP/1.1\r\nHost: canary\r\n\r\n'
 GOOD = b'GET /ok?x=1 HTTP/1.1\r\nHost: h\r\nX-A: 1\r\n\r\n'
 GOOD_POST = b'POST /p HTTP/1.1\r\nHost: h\r\nContent-Length: 5\r\n\r\nhello'
 GOOD_CHUNKED = b'POST /c HTTP/1.1\r\nHost: h\r\nTransfer-Encoding: chunked\r\n\r\n3\r\nabc\r\n2\r\nde\r\n0\r\n\r\n'
 PROBE_BODY = b'probe saw the request'
+CTL_OR_BACKSLASH = re.compile(rb'[\x00-\x08\x0b\x0c\x0e-\x1f\x7f\\]')
 OTHER_MAJOR = re.compile(rb'(?m)^([^\r\n]* )HTTP/[02-9]\.\d\r\n')
 
 
@@ -349,6 +351,14 @@ def twin_cases(case, obs, clause):
                 chunks.append(fixed[pos:pos + len(c)])
                 pos += len(c)
             out.append((K_505, dict(case, chunks=chunks, expect='any', **{'class': 'twin-of-' + cls})))
+        errs = [ref_http.parse_responses(st['written'], closed=bool(st['closes']))[1] for st in obs['steps']]
+        if any(e and "field value of b'Location'" in e[1] for e in errs):
+            # trigger: control bytes (raw, or produced by the parser's unicode_escape decoding of backslash sequences) in the
+            # request are copied into the Location header of the path-guard redirect.  twin: the same reads with every control
+            # byte and backslash replaced by a letter (same length).
+            clean = [CTL_OR_BACKSLASH.sub(b'x', c) for c in case['chunks']]
+            if clean != case['chunks']:
+                out.append((K_LOC, dict(case, chunks=clean, expect='any', **{'class': 'twin-of-' + cls})))
     return out
 
 
@@ -441,7 +451,7 @@ def mutations(rng, orig):
     """(class, expect, bytes) for one random mutation of the well-formed request ``orig``."""
     line, hs, body = split_head(orig)
     method, target, version = line.split(b' ')
-    k = rng.randrange(34)
+    k = rng.randrange(35)
     if k == 0:
         return 'firstline-tokens', 'reject', join_head(rng.choice([method + b' ' + target, method, b'GARBAGE', b'', target + b' ' + version]), hs, body)
     if k == 1:
@@ -543,6 +553,10 @@ def mutations(rng, orig):
         return 'leading-empty-lines', 'any', rng.choice([b'\r\n', b'\r\n\r\n', b'\n', b'\r']) + orig
     if k == 32:
         return 'trailing-garbage', 'any', orig + rng.choice([b'\r\n', b'XYZ', b'\x00', b'GET', orig[:10]])
+    if k == 33:
+        host = rng.choice([b'e\x01ample.org', b'h\x7f', b'h\\x02', b'\x1fh:80', b'h\x0b'])
+        return 'host-control-byte', 'any', join_head(b' '.join([method, rng.choice([b'x', target[1:] or b'y', b'//' + target, target]), version]),
+                                                     [h for h in hs if not h.lower().startswith(b'host')] + [b'Host: ' + host], body)
     return 'well-formed', 'accept', orig
 
 
@@ -627,6 +641,9 @@ def corpus_cases():
         ('transfer-coding-unknown', 'any', b'POST / HTTP/1.1\r\nHost: h\r\nTransfer-Encoding: gzip\r\n\r\n'),
         ('version-minor-high', 'any', b'GET / HTTP/1.9\r\nHost: h\r\n\r\n'),
         ('garbage', 'any', b''),
+        ('host-control-byte', 'any', b'GET x HTTP/1.1\r\nHost: e\x01ample.org\r\n\r\n'),
+        ('host-control-byte', 'any', b'GET x HTTP/1.1\r\nHost: h\\x7f\r\n\r\n'),
+        ('host-control-byte', 'any', b'GET /ok HTTP/1.1\r\nHost: e\x01ample.org\r\n\r\n'),
         ('trailing-garbage', 'any', GOOD + b'XYZ'),
         ('http10-no-keepalive', 'accept', b'GET /old HTTP/1.0\r\n\r\n'),
         ('connection-close', 'accept', b'GET /bye HTTP/1.1\r\nHost: h\r\nConnection: close\r\n\r\n'),
